@@ -268,6 +268,16 @@ try:
         if any((getattr(a, "table", None) or a.element.table) != T2.D.table for a in f_.atoms) or abs(f_.density - want) > 1e-12 * want:
             note("C01:private-table-data:natural-density", "formula(%r, table=T) has density %r; with T's masses (T.D.mass = 2.5) the tag means %r"
                  % (s_, f_.density, want), s_)
+    # ... and what a string denotes follows the table as it is now: the same strings parsed again after another edit
+    T2.Cm._density = 12.2
+    T2.D._mass = 2.25
+    for s_, chk in (("Cm", lambda f: f.density == 12.2), ("3Cm", lambda f: f.density == 12.2),
+                    ("D2O@1n", lambda f: abs(f.density - (2 * 2.25 + T2.O.mass) / (2 * T2.H.mass + T2.O.mass)) < 1e-12)):
+        f_ = attempt(lambda: formula(s_, table=T2))
+        stats["changed_private"] += 1
+        if isinstance(f_, Exception) or not chk(f_):
+            note("C01:private-table-data:stale-after-edit", "after T.Cm._density = 12.2 and T.D._mass = 2.25, formula(%r, table=T) (parsed before the "
+                 "edit as well) has density %r" % (s_, f_ if isinstance(f_, Exception) else f_.density), s_)
     f_ = attempt(lambda: formula("H2O[30]", table=T2))
     stats["changed_private"] += 1
     if isinstance(f_, Exception) or not any(a is T2.O[30] for a in f_.atoms):
